@@ -211,10 +211,25 @@ impl<R: Read + Seek> WdtReader<R> {
         let mut has_mphd = false;
         let mut has_main = false;
 
+        // Chunk sizes are validated against what the reader actually holds
+        let start_pos = self.reader.stream_position()?;
+        let file_end = self.reader.seek(SeekFrom::End(0))?;
+        self.reader.seek(SeekFrom::Start(start_pos))?;
+
         // Read chunks until EOF
         loop {
             match self.read_chunk_header() {
                 Ok((magic, size)) => {
+                    let available = file_end.saturating_sub(self.reader.stream_position()?);
+                    if size as u64 > available {
+                        return Err(Error::InvalidChunkData {
+                            chunk: String::from_utf8_lossy(&magic).into_owned(),
+                            message: format!(
+                                "Size {size} exceeds the {available} bytes remaining in the file"
+                            ),
+                        });
+                    }
+
                     match &magic {
                         b"REVM" => {
                             wdt.mver = MverChunk::read(&mut self.reader, size)?;
